@@ -33,7 +33,7 @@ struct coll {
 	double min_in[MAXR];
 	void *out[MAXR];
 };
-#define MAXCOLL 4096
+#define MAXCOLL 65536
 static struct coll *rs_coll, *ar_coll; /* reduce-scatter and allreduce instances, matched by per-rank post order */
 static int rs_next[MAXR], ar_next[MAXR];
 struct fmpi_req {
